@@ -12,7 +12,7 @@ import sys
 
 def main() -> int:
     path = sys.argv[1]
-    quiet = "--digest" in sys.argv[2:]
+    quiet = "--digest" in sys.argv[2:] or "--sigs" in sys.argv[2:]
     with open(path) as fh:
         rec = json.load(fh)
     from hv import boot  # noqa: F401
@@ -38,7 +38,9 @@ def main() -> int:
             {"timeout": True},
         )
     sigs = sorted(v["signature"] for v in res.violations)
-    if quiet:
+    if "--sigs" in sys.argv[2:]:
+        print(json.dumps([{k: v[k] for k in ("clause", "signature", "expected", "observed")} for v in res.violations], default=repr))
+    elif quiet:
         print(digest([ch.choices, res.outcome, res.obs, res.violations]))
     else:
         print("property :", rec["property"])
